@@ -266,7 +266,7 @@ static size_t feed(zckDL *dl, char *data, size_t len, const char *fragspec, int 
 #include "zh_serve.h"
 
 /* ---- main loop ------------------------------------------------------ */
-#define MAXTOK 64
+#define MAXTOK 8192
 int main(int argc, char **argv) {
     if(argc < 4) { fprintf(stderr, "usage: zh script log out\n"); return 3; }
     zh_log_fd = open(argv[2], O_WRONLY | O_CREAT | O_APPEND, 0644);
